@@ -28,7 +28,8 @@ def c02(chk):
                        "quinn's stream reliability is exercised, not modelled below the stream level"]
     mc_rpc(chk)
     runs = 12 if quick(chk) else 300
-    for label, kw in (("mix", dict(mode="mix", faults=0, calls=80)), ("mixfault", dict(mode="mix", faults=1, calls=80))):
+    for label, kw in (("mix", dict(mode="mix", faults=0, calls=80)), ("mixfault", dict(mode="mix", faults=1, calls=80)),
+                      ("replace", dict(mode="replace", faults=0, calls=60))):
         summ = rpc_runs(chk, label, seed=chk.seed + (7 if kw["faults"] else 0), runs=runs, jobs=12, files=6, **kw)
         count_cases(chk, summ, lambda r: (r["nonce"], r.get("len", 0) // 20000, r.get("status"))
                     if r["ev"] == "obs.rpc_result" and r.get("ok") else None)
